@@ -180,7 +180,7 @@ def lemma_parity(b):
 
 def des_parity(key):
     """every byte of the key with its parity bit (bit 0) set for odd parity"""
-    return b''.join([i2osp(odd_parity_fold(x), 1) for x in key])
+    return b''.join([bytes([odd_parity_fold(x)]) for x in key])
 
 
 def tdes_key_ok(key):
